@@ -50,6 +50,13 @@ KINDS = {
     "block-line-marker-later-line": " /* a\n // b */ ",
     "block-apostrophe": " /* don't */ ",
     "block-dquote": ' /* 3" wide */ ',
+    "block-triple-dquote": ' /* mirrors the """Checkout button""" docstring */ ',
+    "block-triple-squote": " /* ''' */ ",
+    "block-triple-dquote-code": ' /* """; x = 1; r""" */ ',
+    "line-triple-dquote": ' // see """doc"""\n',
+    "block-backslash-end": " /* ends with a backslash \\*/ ",
+    "block-nul": " /* a\x00b */ ",
+    "line-percent-braces": " // 100% {done} %s {0} ${x}\n",
     "block-quoted-terminator": ' /* salt: "a" */ ',
     "block-hash-and-backslash": " /* # \\ \\n */ ",
     "line-comment-apostrophe": " // don't\n",
